@@ -328,6 +328,62 @@ def dg(cx):
                         cx.bad(f, construct=f"{label} -> {got}", detail="; ".join(p for p in probs if p) + ": each class API must be emitted exactly once, after all of its dependencies")
                 else:
                     n_ok += 1
+    # ---- a class given again under the same name replaces the earlier one ("the last one is used"): the class that
+    # is emitted must be the later object, and it is ITS dependencies that must be collected and ordered before it
+    n_over = bad_over = 0
+    for old_deps in ((), (1,), (2,)):
+        for new_deps in ((), (1,), (2,), (1, 2)):
+            for k1k2 in (False, True):
+                for order in (("old", "new"), ("old", "new", 2), (2, "old", "new"), ("old", 1, "new"), ("new", "old", "new")):
+                    n_over += 1
+                    out = {}
+
+                    def thunk():
+                        mk = lambda nm: Obj("class", {"__name__": nm, "_gen_c_api": Builtin("api", lambda: nm), "_depends_on": []}, name=nm)
+                        k1, k2, old, new = mk("K1"), mk("K2"), mk("K0"), mk("K0")
+                        by = {1: k1, 2: k2, "old": old, "new": new}
+                        old.attrs["_get_inner_types"] = Builtin("inner", lambda: [by[d] for d in old_deps])
+                        new.attrs["_get_inner_types"] = Builtin("inner", lambda: [by[d] for d in new_deps[:1]])
+                        new.attrs["_depends_on"] = [by[d] for d in new_deps[1:]]
+                        k1.attrs["_get_inner_types"] = Builtin("inner", lambda: [k2] if k1k2 else [])
+                        k2.attrs["_get_inner_types"] = Builtin("inner", lambda: [])
+                        res = I.call(I.global_lookup("context", "sort_classes"), [[by[x] for x in order]], {})
+                        out["res"] = list(res)
+                        out["new"], out["k1"], out["k2"] = new, k1, k2
+                        return None
+
+                    res = I.explore(thunk, max_paths=4)
+                    label = f"K0 given twice (first with dependencies {['K%d' % d for d in old_deps]}, last with {['K%d' % d for d in new_deps]}), K1 -> K2: {k1k2}, classes handed over {list(order)}"
+                    if len(res) != 1:
+                        raise AnalysisError(f"[DG] {label}: evaluation forks")
+                    if res[0]["exc"] is not None:
+                        if res[0]["exc"].etype in ("AttributeError", "NameError"):
+                            raise AnalysisError(f"[DG] sort_classes cannot be evaluated: {res[0]['exc'].etype}: {res[0]['exc'].msg}")
+                        probs = [f"raises {res[0]['exc'].etype}"]
+                    else:
+                        got = out["res"]
+                        names = [I.getattr(c, "__name__") for c in got]
+                        probs = []
+                        k0 = [c for c in got if I.getattr(c, "__name__") == "K0"]
+                        if len(k0) != 1 or k0[0] is not out["new"]:
+                            probs.append(f"K0 is emitted {len(k0)} times / not as the class given last")
+                        need = {"K%d" % d for d in new_deps} | ({"K2"} if k1k2 and 1 in new_deps else set())
+                        if not need <= set(names):
+                            probs.append(f"the dependencies {sorted(need - set(names))} of the emitted K0 are never emitted")
+                        pos = {nm: i for i, nm in enumerate(names)}
+                        for d in need & set(names):
+                            if "K0" in pos and pos[d] > pos["K0"] and d in {"K%d" % x for x in new_deps}:
+                                probs.append(f"{d} is emitted after K0, which depends on it")
+                        if k1k2 and "K1" in pos and "K2" in pos and pos["K2"] > pos["K1"]:
+                            probs.append("K2 is emitted after K1, which depends on it")
+                        if len(names) != len(set(names)):
+                            probs.append(f"duplicates in {names}")
+                    if probs:
+                        bad_over += 1
+                        if bad_over <= 2:
+                            cx.bad(f, construct=label + (f" -> {[I.getattr(c, '__name__') for c in out.get('res', [])]}" if out.get("res") is not None else ""), detail="; ".join(probs) + ": the class that is emitted is the last one given for its name, with its own dependencies before it", sub="override")
+    if not bad_over:
+        cx.ok(f, construct=f"{n_over} cases of a class given again under the same name", detail="the last one is emitted, once, after its own dependencies", sub="override")
     if bad_seen > 3:
         cx.insts[-1].detail += f" (+{bad_seen - 3} more graphs)"
     if not bad_seen:
